@@ -265,9 +265,20 @@ def impl_file(case):
             warnings.simplefilter("ignore")
             try:
                 p = mp.montepy.read_input(src)
+                appended = 0
                 for kind, idx, edits in case.get("edits", []):
                     if kind == "problem":
                         for e in edits:
+                            if e[0] == "append_cell":
+                                # a cell made from scratch and appended: its per-cell data are new entries at the end
+                                # of every data-block list (behind whatever padding or comment stood there)
+                                c = mp.montepy.Cell()
+                                c.number = e[1]
+                                c.geometry = +list(p.surfaces)[0]
+                                p.cells.append(c)
+                                c.importance.all = e[2]
+                                appended += 1
+                                continue
                             if e[0] != "pidb":
                                 raise AssertionError(e[0])
                             p.print_in_data_block[e[1]] = bool(e[2])
@@ -282,7 +293,7 @@ def impl_file(case):
                             else:
                                 apply_edits(o, [e])
                 p.mcnp_version = tuple(case["version"])
-                holds = {"cells": [c.number for c in p.cells], "surfaces": [s.number for s in p.surfaces],
+                holds = {"cells": [c.number for c in p.cells], "surfaces": [s.number for s in p.surfaces], "appended": appended,
                          "pidb": {k: bool(p.print_in_data_block[k]) for k in ("imp", "vol", "u", "lat", "fill")}}
             except Exception as e:  # noqa: BLE001
                 return {"skip": "setup:" + type(e).__name__}
@@ -576,7 +587,7 @@ def judge_inputs(res, version):
     if any(ws[0].lower() == "read" for b in S for ws in b):
         res["inputs_skip"] = "read-input"  # the source pulls in other files: its own lines do not say what the problem holds
         return None
-    if len(S[0]) != len(res["holds"]["cells"]) or len(S[1]) != len(res["holds"]["surfaces"]):
+    if len(S[0]) + res["holds"].get("appended", 0) != len(res["holds"]["cells"]) or len(S[1]) != len(res["holds"]["surfaces"]):
         # Spec and MontePy's reader split the SOURCE differently (e.g. `& $ comment`, which Spec/Text.lean reads as a
         # continuation mark and MCNP's manual does not settle): reading is C11/C12's subject, nothing to hold the writer to
         res["inputs_skip"] = "source-read-differently"
